@@ -269,8 +269,14 @@ class SimProcess:
             # held up by the pool only if the parent had consumed all of this
             # worker's results and still did not credit them (a schedule that
             # leaves a READY undelivered for 30 s is the harness's doing)
-            if not any(m[0] == READY for m in self.outbox):
+            # ... during join() nobody but the pool decides what is consumed: if
+            # its result handler has stopped reading, that is the pool's doing
+            if self.sim.in_join or not any(m[0] == READY for m in self.outbox):
                 self.guard_waited = True
+                # results never consumed because their job had left the cache
+                self.late_readies += sum(
+                    1 for m in self.outbox if m[0] == READY and
+                    m[1][0] not in self.sim.pool._cache)
             return True
         return False
 
